@@ -336,4 +336,121 @@ theorem getVectorHeaderG_eq (b : Bytes) : getVectorHeaderG b = getVectorHeader b
       simp only
       rw [ite_bool _ (toInt32 n < 0) (by guard_iff)]
 
+/-! ### Fields -/
+
+theorem bit32_lt (n : Nat) : bit32 n < 2 ^ 32 := by unfold bit32; exact Nat.mod_lt _ (by decide)
+
+theorem testBit_bit32 (n m : Nat) : (bit32 n).testBit m = (decide (m < 32) && decide (n = m)) := by
+  unfold bit32
+  rw [Nat.testBit_mod_two_pow, Nat.testBit_two_pow]
+
+theorem fieldsHas_eq (f n : Nat) : fieldsHas f n = (decide (n < 32) && f.testBit n) := by
+  unfold fieldsHas
+  by_cases hn : n < 32
+  · have hb : bit32 n = 2 ^ n := by
+      unfold bit32; exact Nat.mod_eq_of_lt (Nat.pow_lt_pow_right (by decide) hn)
+    rw [hb]
+    simp only [hn, decide_true, Bool.true_and]
+    cases hf : f.testBit n with
+    | false =>
+      have : f &&& 2 ^ n = 0 := by
+        apply Nat.eq_of_testBit_eq
+        intro i
+        rw [Nat.testBit_and, Nat.testBit_two_pow]
+        by_cases hi : n = i
+        · subst hi; simp [hf]
+        · simp [hi]
+      simp [this]
+    | true =>
+      have : (f &&& 2 ^ n).testBit n = true := by
+        rw [Nat.testBit_and, Nat.testBit_two_pow]; simp [hf]
+      have hne : f &&& 2 ^ n ≠ 0 := by
+        intro h0; rw [h0] at this; simp at this
+      simp [hne]
+  · have hb : bit32 n = 0 := by
+      apply Nat.eq_of_testBit_eq
+      intro i
+      rw [testBit_bit32]
+      by_cases hi : i < 32
+      · have : n ≠ i := by omega
+        simp [this]
+      · simp [hi]
+    simp [hb, hn]
+
+theorem testBit_fieldsSet (f n m : Nat) :
+    (fieldsSet f n).testBit m = (f.testBit m || (decide (m < 32) && decide (n = m))) := by
+  unfold fieldsSet
+  rw [Nat.testBit_or, testBit_bit32]
+
+theorem testBit_fieldsUnset (f n m : Nat) (hf : f < 2 ^ 32) :
+    (fieldsUnset f n).testBit m = (f.testBit m && !(decide (n = m))) := by
+  unfold fieldsUnset
+  rw [Nat.testBit_and, Nat.testBit_xor, Nat.testBit_two_pow_sub_one, testBit_bit32]
+  by_cases hm : m < 32
+  · by_cases hnm : n = m <;> simp [hm, hnm]
+  · have : f.testBit m = false := by
+      apply Nat.testBit_lt_two_pow
+      exact Nat.lt_of_lt_of_le hf (Nat.pow_le_pow_right (by decide) (by omega))
+    simp [this]
+
+theorem bit32_ge (n : Nat) (hn : 32 ≤ n) : bit32 n = 0 := by
+  apply Nat.eq_of_testBit_eq
+  intro i
+  rw [testBit_bit32]
+  by_cases hi : i < 32
+  · have : n ≠ i := by omega
+    simp [this]
+  · simp [hi]
+
+theorem fieldsSet_lt (f n : Nat) (hf : f < 2 ^ 32) : fieldsSet f n < 2 ^ 32 :=
+  Nat.or_lt_two_pow hf (bit32_lt n)
+
+theorem fieldsUnset_lt (f n : Nat) (hf : f < 2 ^ 32) : fieldsUnset f n < 2 ^ 32 := by
+  unfold fieldsUnset
+  exact Nat.lt_of_le_of_lt Nat.and_le_left hf
+
+theorem getFields_putFields (f : Nat) (hf : f < 2 ^ 32) (rest : Bytes) :
+    getFields (putFields f ++ rest) = .ok (f, rest) := by
+  unfold getFields putFields getInt32
+  rw [getU32_putU32 f rest hf]
+  simp only
+  have : ofInt32 (toInt32 f) = f := by unfold ofInt32 toInt32; split <;> omega
+  rw [this]
+
+/-! ### Buffer housekeeping -/
+
+theorem readChunks_concat (ks : List Nat) (b : Bytes) :
+    (readChunks ks b).1.flatten ++ (readChunks ks b).2 = b := by
+  induction ks generalizing b with
+  | nil => simp [readChunks]
+  | cons k ks ih =>
+    simp only [readChunks, bufRead]
+    by_cases hk : k = 0
+    · simp [hk, ih]
+    · by_cases he : b.isEmpty = true
+      · simp [hk, he, ih]
+      · simp only [hk, he, if_false, Bool.false_eq_true]
+        have := ih (b.drop k)
+        simp only [List.flatten_cons, List.append_assoc, this, List.take_append_drop]
+
+theorem readChunks_drains (ks : List Nat) (b : Bytes) (hpos : ∀ k ∈ ks, 0 < k) (hsum : b.length ≤ ks.sum) :
+    (readChunks ks b).2 = [] := by
+  induction ks generalizing b with
+  | nil =>
+    simp only [List.sum_nil, Nat.le_zero] at hsum
+    simp [readChunks, List.length_eq_zero_iff.mp hsum]
+  | cons k ks ih =>
+    have hk : 0 < k := hpos k (by simp)
+    simp only [readChunks, bufRead]
+    have hk0 : ¬ k = 0 := by omega
+    by_cases he : b.isEmpty = true
+    · simp only [hk0, he, if_false, if_true]
+      have hb : b = [] := List.isEmpty_iff.mp he
+      subst hb
+      exact ih [] (fun x hx => hpos x (by simp [hx])) (by simp)
+    · simp only [hk0, he, if_false, Bool.false_eq_true]
+      apply ih (b.drop k) (fun x hx => hpos x (by simp [hx]))
+      simp only [List.length_drop, List.sum_cons] at hsum ⊢
+      omega
+
 end TdModel.C20
